@@ -29,6 +29,8 @@ static void note(const char *op, const char *a, const char *b) {
     int fd = open(log, O_WRONLY | O_CREAT | O_APPEND, 0644);
     if (fd >= 0) { if (write(fd, buf, len) < 0) {} close(fd); }
   }
+  const char *dl = getenv("FI_DELAY_US");
+  if (dl && atol(dl) > 0) usleep((useconds_t)atol(dl));   /* slow file system: stretches the writer thread */
   const char *k = getenv("FI_KILL_AT");
   if (k && atol(k) > 0 && n == atol(k)) kill(getpid(), SIGKILL);
 }
